@@ -369,6 +369,9 @@ func min(a, b int) int {
 
 func init() {
 	register("C01", func(c *Ctx) error {
+		if err := runReadersVsCompactions(c); err != nil {
+			return err
+		}
 		return runSysProfile(c, func(i int) *profile {
 			return &profile{name: "snapshot", wBegin: 6, wModify: 14, wGet: 12, wIter: 5, wCommit: 7, wDiscard: 2, wFlush: 4, wCompact: 4, wDump: 1,
 				nOps: 30 + c.Rng.Intn(40), keys: keySetA[:4+c.Rng.Intn(8)], allVersions: true, reverse: true, prefix: true, expiry: true,
